@@ -457,7 +457,10 @@ def pPrimary (fuel : Nat) (ts : List Tok) : P Expr :=
     | .var x :: rest => some (.var x, rest)
     | .punct "(" :: rest =>
       match pPipe fuel rest with
-      | some (e, .punct ")" :: rest') => some (e, rest')
+      -- parentheses are dropped, except that `(.)`, `(.a)`, `(.[0])`, `(tostring)` stay distinguishable
+      -- from the bare forms (as the equivalent `. | e`): succinctly answers only the bare forms directly
+      -- on a `reduce`/`foreach` state (`foldFastPath`)
+      | some (e, .punct ")" :: rest') => some (if foldFastPath e then .pipe .identity e else e, rest')
       | _ => none
     | .punct "[" :: .punct "]" :: rest => some (.arr none, rest)
     | .punct "[" :: rest =>
